@@ -81,22 +81,21 @@ fn routing(rep: &mut Report, n: usize, masks: &[u64]) {
             }
             Some(t) => {
                 let ev = (masks[t] & ((1u64 << q) - 1)).count_ones() as u16;
-                let ok = d.len() == 1 && d[0].thread == t && d[0].event == ev && d[0].ring_size == Some(size_of_queue(q));
+                // handled by exactly one worker, with that worker's id, event id and ring; the same
+                // (thread, event, ring) delivered more than once is not forbidden by the statement
+                let good = |x: &Dispatch| x.thread == t && x.event == ev && x.ring_size == Some(size_of_queue(q));
+                let ok = !d.is_empty() && d.iter().all(good);
                 if ok {
-                    rep.outcome("routed");
+                    rep.outcome(if d.len() == 1 { "routed" } else { "routed-repeatedly(info)" });
                     rep.nontrivial += 1;
                 } else {
                     rep.outcome("misrouted");
-                    let kind = if d.is_empty() {
-                        "not-dispatched"
-                    } else if d.len() > 1 {
-                        "dispatched-more-than-once"
-                    } else if d[0].thread != t {
-                        "wrong-worker"
-                    } else if d[0].event != ev {
-                        "wrong-event-id"
-                    } else {
-                        "wrong-ring-at-event-id"
+                    let bad = d.iter().find(|x| !good(x));
+                    let kind = match bad {
+                        None => "not-dispatched",
+                        Some(x) if x.thread != t => "wrong-worker",
+                        Some(x) if x.event != ev => "wrong-event-id",
+                        Some(_) => "wrong-ring-at-event-id",
                     };
                     rep.violation(&format!("C17:routing:{kind}"), &format!("queues={n} masks={:x?}: kick on queue {q} expected (thread {t}, event {ev}, ring of size {}), observed {:?}", masks, size_of_queue(q), d), case(q));
                 }
